@@ -137,7 +137,6 @@ Proof.
 Qed.
 
 (** the first patch of a name, its type, settings and modified flag *)
-Definition pfind (ps : list pat) (n : nat) : option pat := find (fun p => p_name p =? n) ps.
 Definition modded (ps : list pat) (n k : nat) (st : list nat) : Prop :=
   exists p, pfind ps n = Some p /\ p_mod p = true /\ p_kind p = k /\ p_set p = st.
 
